@@ -5,6 +5,7 @@ import (
 	"encoding/hex"
 	"encoding/json"
 	"fmt"
+	"github.com/nulab/autog"
 	"math"
 	"os"
 	"reflect"
@@ -22,7 +23,7 @@ import (
 var propC07 = register(&Property{
 	ID: "C07",
 	Rule: "all graph families (unions, >=2 self-loops, antiparallel pairs, slack ties over-weighted) x all algorithm combinations except Greedy+random; 5 repeated calls in-process on the SAME source and size map " +
-		"(also checks the inputs are unmodified) + every case's result digest compared with a second, fresh process; non-trivial = >=2 components or >=2 self-loops or an antiparallel pair or >=2 reversed edges",
+		"(also checks the inputs are unmodified: edge list, size map(s), and the option slice incl. its spare capacity) + every case's result digest compared with a second, fresh process; non-trivial = >=2 components or >=2 self-loops or an antiparallel pair or >=2 reversed edges",
 	New:   func() any { return &Case{} },
 	Gen:   func(rt *rapid.T, s *Stats) any { return genC07(rt, s) },
 	Check: func(c any) *Outcome { return checkC07(c.(*Case)) },
@@ -96,13 +97,27 @@ func checkC07(c *Case) *Outcome {
 	sizes := c.SizeMap()
 	srcSnap := c.EdgeSlice()
 	sizeSnap := c.SizeMap()
-	first, perr := c.RunWith(src, sizes)
+	// the option list is an argument too: it is handed over as a slice with spare capacity (nil in the spare slots), the
+	// way `opts := append(common, extra...)` leaves it in a caller's hands, and must come back untouched
+	base := c.Options(sizes)
+	decoy := c.lastDecoy
+	opts := make([]autog.Option, len(base), len(base)+3)
+	copy(opts, base)
+	codeOf := func(os []autog.Option) []uintptr {
+		ps := make([]uintptr, len(os))
+		for i, f := range os {
+			ps[i] = reflect.ValueOf(f).Pointer()
+		}
+		return ps
+	}
+	optSnap := codeOf(opts)
+	first, perr := c.RunOpts(src, opts)
 	if perr != nil {
 		return o.failf("Layout panicked: %v", perr)
 	}
 	logDigest(c, first)
 	for i := 0; i < 4; i++ {
-		again, perr := c.RunWith(src, sizes)
+		again, perr := c.RunOpts(src, opts)
 		if perr != nil {
 			return o.failf("Layout panicked on repetition %d: %v", i+2, perr)
 		}
@@ -115,6 +130,20 @@ func checkC07(c *Case) *Outcome {
 	}
 	if !reflect.DeepEqual(sizes, sizeSnap) {
 		return o.failf("the caller's size map was modified: %v, was %v", sizes, sizeSnap)
+	}
+	if c.OptStyle == 3 && decoy != nil {
+		if want := DecoySizes(sizeSnap); !reflect.DeepEqual(decoy, want) {
+			return o.failf("the size map of the caller's first WithNodeSize option was modified: %v, was %v", decoy, want)
+		}
+		o.class("two_size_maps")
+	}
+	if !reflect.DeepEqual(codeOf(opts), optSnap) {
+		return o.failf("the caller's option slice was modified (an option was replaced)")
+	}
+	for i, f := range opts[:cap(opts)][len(opts):] {
+		if f != nil {
+			return o.failf("Layout wrote into the spare capacity of the caller's option slice (slot %d beyond its length %d)", i, len(opts))
+		}
 	}
 	rev := 0
 	for _, e := range first.Edges {
